@@ -9,9 +9,9 @@ From TV Require Export Lib.Interleave Gen.BudgetConsts Model.Budget.
 Import ListNotations.
 Open Scope Z_scope.
 
-(* which variant of the model the implementation is compared with: false = the lock-free code
-   as it is, true = allocate under a mutex (fixes/C39-allocate-under-lock.diff) *)
-Definition LK : bool := false.
+(* which variant of the model the implementation is compared with: true = allocate under the
+   mutex alloc_lock (the code since /repo commit 0306f36); false = the lock-free code before it *)
+Definition LK : bool := true.
 
 (* one observation per executed schedule entry:
    code: 0 = skipped (thread finished earlier / still blocked), 1 = ran to the end of its program,
@@ -155,7 +155,7 @@ Fixpoint set_nth (l : list nat) (i : nat) (v : nat) : list nat :=
   | x :: r, S i' => x :: set_nth r i' v
   end.
 
-Fixpoint oracle (chk_lim : bool) (l : Z) (progs : list (list op)) (results : list (list Z)) (sched : list nat) (ob : list obs)
+Fixpoint oracle (l : Z) (progs : list (list op)) (results : list (list Z)) (sched : list nat) (ob : list obs)
                 (dones : list nat) (bal taint : counters) : bool :=
   match sched, ob with
   | [], [] => true
@@ -169,11 +169,11 @@ Fixpoint oracle (chk_lim : bool) (l : Z) (progs : list (list op)) (results : lis
                | Some (bal', taint') =>
                    match counters_of cl with
                    | Some c =>
-                       (negb chk_lim || (total c <=? l))
+                       (total c <=? l)
                        && forallb (fun p => (get taint' p =? 1) || (get c p =? get bal' p)) all_pools
-                   | None => negb chk_lim      (* unreadable: the sum of the counters overflowed usize *)
+                   | None => false      (* unreadable: the sum of the counters overflowed usize, above any limit *)
                    end
-                   && oracle chk_lim l progs results sched' ob' (set_nth dones t d1) bal' taint'
+                   && oracle l progs results sched' ob' (set_nth dones t d1) bal' taint'
                end
       | _, _, _ => false
       end
@@ -183,40 +183,11 @@ Fixpoint oracle (chk_lim : bool) (l : Z) (progs : list (list op)) (results : lis
 Definition spec_ok (c : case) : bool :=
   match c with
   | Case _ l progs sched ob results =>
-      oracle true l progs results sched ob (map (fun _ => O) progs) zeroC zeroC
+      oracle l progs results sched ob (map (fun _ => O) progs) zeroC zeroC
   end.
-(* the same without clause (a): used to keep the finding classes to limit violations only *)
-Definition accounting_ok (c : case) : bool :=
-  match c with
-  | Case _ l progs sched ob results =>
-      oracle false l progs results sched ob (map (fun _ => O) progs) zeroC zeroC
-  end.
-
-(* ---- recorded findings: the class of the first step of the model run that takes the total
-   above the limit = the staleness class of the snapshot behind the allocation that did it
-   (1 = another pool's counter grew after it was read, F-C39-1; 2 = the own pool's counter grew
-   and came back to the expected value, ABA, F-C39-2).  Proof.Budget: a CAS of class 0 cannot
-   take the total above the limit. *)
-Fixpoint first_over (fuel : nat) (sched : list nat) (ob : list obs) (sw : St * list nat) : Z :=
-  match sched with
-  | [] => 0
-  | t :: rest =>
-      let '(sw', _) := coarse fuel t (hint_of (hd_error ob)) sw in
-      let s := fst sw in let s' := fst sw' in
-      if lim s' <? total (sh s') then
-        let n0 := Z.to_nat (done_of s t) in
-        let n1 := Z.to_nat (done_of s' t) in
-        match lget (thrs s') t with
-        | Some th => fold_right Z.max 0 (map ev_cls (firstn (n1 - n0) (tlog th)))
-        | None => 0
-        end
-      else first_over fuel rest (tl ob) sw'
-  end.
-Definition known_class (c : case) : Z :=
-  match c with
-  | Case limreq _ progs sched ob _ =>
-      if accounting_ok c then first_over (fuel_of progs) sched ob (init limreq (number 0 progs), []) else 0
-  end.
+(* no recorded finding is open: F-C39-1 / F-C39-2 are fixed (commit 0306f36), their witnesses are
+   replayed on every run and must satisfy the oracle *)
+Definition known_class (c : case) : Z := 0.
 
 Fixpoint failures_from (i : Z) (cs : list case) : list (Z * bool * bool * Z) :=
   match cs with
